@@ -1,15 +1,62 @@
 (* C05 — NFFT only chooses the sampling grid of one underlying spectrum.  Statements only.
 
-   PROVED (abstract *-field; every length N, every refinement factor c >= 1, every bin):
-     character_of_coarse_grid   the character of the grid c*n restricted to multiples of c is a character of
-                                exact period n (so the two grids share their common frequencies)
-     dft_common_frequencies     the DFT of the same N samples evaluated on the fine grid at bin c*k equals the
-                                DFT on the coarse grid at bin k (k in Z)
+   Setting of every theorem: abstract *-field; fine grid c*n with DFT character tw', coarse grid n with the character
+   [coarsen c tw'] (tw' restricted to multiples of c); every refinement factor c >= 1, every data length N <= n, every
+   returned coarse entry k; "agree at common frequencies" = entry k of the coarse result equals entry c*k of the fine one
+   (and c*k IS an entry of the fine result: the one-sided index bounds are part of the statements, both parities of n and c*n).
+
+   PROVED
+     character_of_coarse_grid   the character of the grid c*n restricted to multiples of c is a character of exact period n
+     dft_common_frequencies     DFT of the same N samples: fine grid at bin c*k = coarse grid at bin k (k in Z)
      fft_common_frequencies     list level: fft(x, c*n)[c*k] = fft(x, n)[k] whenever len(x) <= n
-   NOT PROVED at this commit (search on the implementation only): the per-class statements (periodogram, correlogram
-   under NFFT >= 2 lag + 1, arma2psd under NFFT > order, minimum variance, multitaper) and "the model parameters
-   do not depend on NFFT" (true by construction of every pipeline: the functional estimator is not passed NFFT). *)
+     periodogram_grid           speriodogram, real (rfft bins) and complex data, every window, EVERY detrend value (the mean is
+                                taken over the data, not over the padding), scale_by_freq not True
+     periodogram_class_grid     the Periodogram object built with NFFT = n resp. c*n, after any common history of calls, reads
+                                of .psd and window changes: NFFT stays n resp. c*n and the stored PSDs agree at common frequencies
+     correlogram_grid           CORRELOGRAMPSD under NFFT >= 2*lag+1 (auto and cross, every norm, both back ends, every lag window):
+                                same exception behaviour on both grids, same values at common frequencies
+     arma2psd_grid              arma2psd (default sides, norm False) under NFFT > max(len A, len B) [admissible]: both calls return,
+                                same values at common frequencies, whatever rho and T
+     minvar_grid                minvar under NFFT >= 2*order-1: same exception behaviour; the returned AR vector and reflection
+                                coefficients are identical; same PSD at common frequencies
+     pmtm_grid                  pmtm under NFFT >= N: same ValueError behaviour; eigenvalues identical, weights identical
+                                (unity/eigen), tapers = dpss(N, NW, k) on both grids, complex eigenspectra agree at common frequencies
+     mtm_grid                   MultiTapering (unity / eigen), real (one-sided, doubled) and complex data, scale_by_freq off
+     mtm_adapt_pointwise        adaptive weighting, what is EXACT: after the same number t of passes (every t) the estimate and
+                                the weights on the two grids agree at common frequencies — one pass at a frequency reads only the
+                                eigenspectra at that frequency, the eigenvalues and sigma^2
+     mtm_adapt_grid             MultiTapering (adapt): if the two runs made the same number of passes, the stored PSDs agree at
+                                common frequencies (NFFT enters only through the stopping test tol = 0.0005 sig2/NFFT vs the grid mean)
+     eigen_grid                 eigen()/music/ev under NFFT >= P (centred vector; coarse entry j sits at fine entry c*j + centre_off):
+                                same errors, same singular values, same pseudo-spectrum at common frequencies
+     music_grid                 pmusic / pev, real (one-sided, doubled, flipped) and complex (centerdc_2_twosided) data, scale off
+     store_grid                 every store form of the class pipelines (as is, psd[0:hi]*2 for both parities, the same flipped,
+                                twosided_2_onesided, centerdc_2_twosided) commutes with the sub-sampling k |-> c*k
+     stored_grid                class level over the pipeline interpreter (estimator -> store -> scale() calls), for a row whose
+                                coefficient does not see NFFT
+     *_grid_rel                 the per-estimator theorems deliver the hypothesis [grid_rel] of stored_grid / class_grid
+   PROVED over the GENERATED pipeline table, recompiled on every run by tools/props/C05.py (tools/props/_c05_theorems.v.in):
+     params_independent_of_nfft no class passes anything computed from NFFT to arburg/aryule/arcovar/modcovar/arma_estimate/ma,
+                                no stored attribute (ar, ma, rho, reflection, eigenvalues, weights, Sk) is computed from NFFT,
+                                NFFT reaches the functional estimator only as its NFFT argument
+     class_grid                 for every class except pdaniell, real and complex data, scale_by_freq off: stored psd entry k
+                                (NFFT = n) = entry c*k (NFFT = c*n) for every stored coarse entry, given grid_rel for the estimator
+     class_grid_periodogram, class_grid_correlogram, class_grid_arma2psd, class_grid_minvar, class_grid_mtm (unity/eigen),
+     class_grid_eigen           end to end: the estimator MODEL on the two grids followed by the class' store agrees at common
+                                frequencies (no grid_rel hypothesis left; same exceptions; stored ar/reflection/eigenvalues/weights equal)
+     class_grid_covers          every row of the table uses one of these six estimators, or is pdaniell
+   NOT PROVED
+     * adaptive multitaper without the equal-passes hypothesis: FALSE in general (the stopping test is grid-wide; the two runs may
+       stop after different numbers of passes and then differ within the code's own tolerance) — search at rtol 1e-3;
+     * pdaniell: the Daniell smoother averages neighbouring bins of the NFFT grid, a different estimator per grid — outside the property;
+     * the parameter estimators themselves are not re-proved here (C09-C14 own them): NFFT-independence of ar/ma/rho/reflection is
+       "not passed NFFT" (table theorem) + the search comparing the attributes. *)
 Require Import Spectrum.Theory.Ops Spectrum.Theory.Sum Spectrum.Theory.Vec Spectrum.Theory.Dft Spectrum.Proofs.GridTheory
+               Spectrum.Model.Corr Spectrum.Model.Periodogram Spectrum.Model.Arma2psd Spectrum.Model.Minvar Spectrum.Model.Mtm
+               Spectrum.Model.Eigen Spectrum.Model.PipelineLib
+               Spectrum.Proofs.Arma2psdTheory Spectrum.Proofs.MtmTheory Spectrum.Proofs.PipelineTheory
+               Spectrum.Proofs.GridFourier_C05 Spectrum.Proofs.GridParam_C05 Spectrum.Proofs.GridMtm_C05
+               Spectrum.Proofs.GridEigen_C05 Spectrum.Proofs.GridClass_C05 Spectrum.Proofs.GridLink_C05
                Spectrum.Instances.QcC Spectrum.Instances.QcCTw.
 
 Section C05.
@@ -28,12 +75,263 @@ Theorem fft_common_frequencies (n c : nat) (tw' : Z -> F) (x : list F) (k : nat)
   (0 < c)%nat -> (k < n)%nat -> (length x <= n)%nat ->
   nthF (dft tw' (c * n) x) (c * k) = nthF (dft (coarsen c tw') n x) k.
 Proof. exact (fft_grid_thm n c tw' x k). Qed.
+
+Theorem periodogram_grid (n c : nat) (tw' : Z -> F) twopi (x w : list F) isreal dt sbf fs (k : nat) :
+  (0 < c)%nat -> (1 <= n)%nat -> (length x <= n)%nat -> py_is_true sbf = false -> (k < nbins isreal n)%nat ->
+  (c * k < nbins isreal (c * n))%nat /\
+  nthF (speriodogram tw' twopi x w (Some (c * n)%nat) isreal dt sbf fs) (c * k)%nat
+  = nthF (speriodogram (coarsen c tw') twopi x w (Some n) isreal dt sbf fs) k.
+Proof. exact (periodogram_grid_thm n c tw' twopi x w isreal dt sbf fs k). Qed.
+
+Theorem periodogram_class_grid (n c : nat) (tw' : Z -> F) twopi (data : list F) isreal wn (w : list F) fs dt sbf (ops : list pop) :
+  (0 < c)%nat -> (1 <= n)%nat -> (length data <= n)%nat -> py_is_true sbf = false ->
+  let sc := p_read (coarsen c tw') twopi (fold_left (p_step (coarsen c tw') twopi) ops (p_init data isreal wn w fs (NfInt n) dt sbf)) in
+  let sf := p_read tw' twopi (fold_left (p_step tw' twopi) ops (p_init data isreal wn w fs (NfInt (c * n)%nat) dt sbf)) in
+  p_NFFT sc = n /\ p_NFFT sf = (c * n)%nat /\
+  exists pc pf, p_psd sc = Some pc /\ p_psd sf = Some pf /\ length pc = nbins isreal n /\ length pf = nbins isreal (c * n) /\
+    forall k, (k < nbins isreal n)%nat -> (c * k < nbins isreal (c * n))%nat /\ nthF pf (c * k)%nat = nthF pc k.
+Proof. exact (periodogram_class_grid_thm n c tw' twopi data isreal wn w fs dt sbf ops). Qed.
+
+Theorem correlogram_grid (n c : nat) (tw' : Z -> F) (T' : Twiddle (c * n) tw') rp (x : list F) y lag wfull nm be :
+  (0 < c)%nat -> (2 * lag + 1 <= n)%nat ->
+  match correlogram (coarsen c tw') rp x y lag wfull (Some n) nm be, correlogram tw' rp x y lag wfull (Some (c * n)%nat) nm be with
+  | Some lc, Some lf => length lc = n /\ length lf = (c * n)%nat /\ forall k, (k < n)%nat -> nthF lf (c * k)%nat = nthF lc k
+  | None, None => True
+  | _, _ => False
+  end.
+Proof. exact (correlogram_grid_thm n c tw' rp x y lag wfull nm be). Qed.
+
+Theorem arma2psd_grid (n c : nat) (tw' : Z -> F) (T' : Twiddle (c * n) tw') (A B : option (list F)) (rho T : F) :
+  (0 < c)%nat -> admissible A B n ->
+  exists pc pf, arma2psd (coarsen c tw') A B rho T n SidesDefault false = Some pc
+             /\ arma2psd tw' A B rho T (c * n) SidesDefault false = Some pf
+             /\ length pc = n /\ length pf = (c * n)%nat
+             /\ forall k, (k < n)%nat -> nthF pf (c * k)%nat = nthF pc k.
+Proof. exact (arma2psd_grid_thm n c tw' A B rho T). Qed.
+
+Theorem minvar_grid (n c : nat) (tw' : Z -> F) (T' : Twiddle (c * n) tw') (x : list F) (m : nat) (s : F) :
+  (0 < c)%nat -> (2 * m - 1 <= n)%nat ->
+  match minvar (coarsen c tw') x m s n, minvar tw' x m s (c * n) with
+  | Some (pc, Ac, kc), Some (pf, Af, kf) =>
+      Ac = Af /\ kc = kf /\ length pc = n /\ length pf = (c * n)%nat /\ forall k, (k < n)%nat -> nthF pf (c * k)%nat = nthF pc k
+  | None, None => True
+  | _, _ => False
+  end.
+Proof. exact (minvar_grid_thm n c tw' x m s). Qed.
+
+Theorem pmtm_grid {NWT : Type} (dpss : nat -> NWT -> option nat -> list (list F) * list F)
+  fuel (n c : nat) (tw' : Z -> F) (x : list F) NW k e v m :
+  (0 < c)%nat -> (length x <= n)%nat ->
+  match pmtm dpss fuel (coarsen c tw') x NW k (Some n) e v m, pmtm dpss fuel tw' x NW k (Some (c * n)%nat) e v m with
+  | Some (SC, wC, evC), Some (SF, wF, evF) =>
+      evC = evF /\ (m <> Adapt -> wC = wF) /\ length SC = length SF /\ col_rel n c SC SF /\
+      exists tv, pmtm_inputs dpss (length x) NW k e v = Some tv /\ evC = snd tv /\ length SC = length (fst tv)
+  | None, None => True
+  | _, _ => False
+  end.
+Proof. exact (pmtm_grid_thm dpss fuel n c tw' x NW k e v m). Qed.
+
+Theorem mtm_grid {NWT : Type} (dpss : nat -> NWT -> option nat -> list (list F) * list F)
+  fuel (n c : nat) (tw' : Z -> F) isr (x : list F) NW k e v m (scale : F) :
+  (0 < c)%nat -> (1 <= n)%nat -> (length x <= n)%nat -> m <> Adapt ->
+  match mt_call dpss fuel (coarsen c tw') isr x NW k (Some n) e v m false scale,
+        mt_call dpss fuel tw' isr x NW k (Some (c * n)%nat) e v m false scale with
+  | Some pc, Some pf =>
+      length pc = (if isr then Nat.min (mt_keep n) n else n) /\
+      length pf = (if isr then Nat.min (mt_keep (c * n)) (c * n) else (c * n)%nat) /\
+      forall b, (b < length pc)%nat -> (c * b < length pf)%nat /\ nthF pf (c * b)%nat = nthF pc b
+  | None, None => True
+  | _, _ => False
+  end.
+Proof. exact (mtm_grid_thm dpss fuel n c tw' isr x NW k e v m scale). Qed.
+
+Theorem mtm_adapt_pointwise (n c : nat) (tw' : Z -> F) tapers (ev x : list F) (t : nat) :
+  (0 < c)%nat -> (length x <= n)%nat ->
+  let SC := powspec (eigenspectra (coarsen c tw') tapers x n) in
+  let SF := powspec (eigenspectra tw' tapers x (c * n)) in
+  let stC := ad_iter t SC ev (sig2 x) n in
+  let stF := ad_iter t SF ev (sig2 x) (c * n) in
+  forall k, (k < n)%nat ->
+    nthF (ad_S stF) (c * k) = nthF (ad_S stC) k /\
+    forall j, (j < length ev)%nat -> at2 (ad_wk stF) (c * k) j = at2 (ad_wk stC) k j.
+Proof. exact (mtm_adapt_pointwise_thm n c tw' tapers ev x t). Qed.
+
+Theorem mtm_adapt_grid {NWT : Type} (dpss : nat -> NWT -> option nat -> list (list F) * list F)
+  fuel (n c : nat) (tw' : Z -> F) isr (x : list F) NW k e v (scale : F) :
+  (0 < c)%nat -> (1 <= n)%nat -> (length x <= n)%nat ->
+  (forall tv, pmtm_inputs dpss (length x) NW k e v = Some tv ->
+     ad_i (adapt_run fuel (eigenspectra (coarsen c tw') (fst tv) x n) (snd tv) x n)
+     = ad_i (adapt_run fuel (eigenspectra tw' (fst tv) x (c * n)) (snd tv) x (c * n))) ->
+  match mt_call dpss fuel (coarsen c tw') isr x NW k (Some n) e v Adapt false scale,
+        mt_call dpss fuel tw' isr x NW k (Some (c * n)%nat) e v Adapt false scale with
+  | Some pc, Some pf =>
+      length pc = (if isr then Nat.min (mt_keep n) n else n) /\
+      length pf = (if isr then Nat.min (mt_keep (c * n)) (c * n) else (c * n)%nat) /\
+      forall b, (b < length pc)%nat -> (c * b < length pf)%nat /\ nthF pf (c * b)%nat = nthF pc b
+  | None, None => True
+  | _, _ => False
+  end.
+Proof. exact (mtm_adapt_grid_thm dpss fuel n c tw' isr x NW k e v scale). Qed.
+
+Theorem eigen_grid (n c : nat) (tw' : Z -> F) (T' : Twiddle (c * n) tw') (Hc : (0 < c)%nat) (Hn : (0 < n)%nat)
+  meth eps nsig thr crit amin (x : list F) P S Vh :
+  (forall I, (I < P)%nat -> length (mrow Vh I) = P) -> (P <= n)%nat ->
+  match eigen meth eps nsig thr crit amin (coarsen c tw') n x P S Vh, eigen meth eps nsig thr crit amin tw' (c * n) x P S Vh with
+  | inr (pc, evc), inr (pf, evf) =>
+      evc = evf /\ evc = S /\ length pc = n /\ length pf = (c * n)%nat /\
+      forall j, (j < n)%nat -> (c * j + centre_off n c < c * n)%nat /\ nthF pf (c * j + centre_off n c) = nthF pc j
+  | inl e1, inl e2 => e1 = e2
+  | _, _ => False
+  end.
+Proof. exact (eigen_grid_thm n c tw' Hc Hn meth eps nsig thr crit amin x P S Vh). Qed.
+
+Theorem music_grid (n c : nat) (tw' : Z -> F) (T' : Twiddle (c * n) tw') (Hc : (0 < c)%nat) (Hn : (0 < n)%nat)
+  meth eps nsig thr crit amin (x : list F) P S Vh :
+  (forall I, (I < P)%nat -> length (mrow Vh I) = P) -> (P <= n)%nat -> forall isr : bool,
+  match pclass meth eps isr None nsig thr crit amin (coarsen c tw') n x P S Vh,
+        pclass meth eps isr None nsig thr crit amin tw' (c * n) x P S Vh with
+  | inr (pc, evc), inr (pf, evf) =>
+      evc = evf /\ evc = S /\
+      length pc = (if isr then n / 2 + 1 else n)%nat /\ length pf = (if isr then (c * n) / 2 + 1 else c * n)%nat /\
+      forall j, (j < length pc)%nat -> (c * j < length pf)%nat /\ nthF pf (c * j) = nthF pc j
+  | inl e1, inl e2 => e1 = e2
+  | _, _ => False
+  end.
+Proof. exact (music_grid_thm n c tw' Hc Hn meth eps nsig thr crit amin x P S Vh). Qed.
+
+(* ---------------- class level ---------------- *)
+Theorem store_grid (st : store) (lay : flayout) (n c : nat) (S1 S2 : list F) :
+  store_ok st lay = true -> (0 < c)%nat -> (0 < n)%nat -> grid_rel lay n c S1 S2 ->
+  forall k, (k < length (do_store st n S1))%nat ->
+    (c * k < length (do_store st (c * n) S2))%nat /\ nthF (do_store st (c * n) S2) (c * k) = nthF (do_store st n S1) k.
+Proof. exact (do_store_grid st lay n c S1 S2). Qed.
+
+Theorem stored_grid (twopi : F) (m : psdmodel) (p : pipeline) (real : bool) (s1 s2 : sstate) (n c : nat) (S1 S2 : list F) :
+  (0 < c)%nat -> (0 < n)%nat -> st_NFFT s1 = n -> st_NFFT s2 = (c * n)%nat ->
+  store_ok (if real then p_real p else p_cplx p) (lay_of (p_est p) real) = true ->
+  (forall l1 l2, coef twopi m p real false s2 l2 = coef twopi m p real false s1 l1) ->
+  grid_rel (lay_of (p_est p) real) n c S1 S2 ->
+  forall k, (k < length (stored twopi m p real false s1 S1))%nat ->
+    (c * k < length (stored twopi m p real false s2 S2))%nat
+    /\ nthF (stored twopi m p real false s2 S2) (c * k) = nthF (stored twopi m p real false s1 S1) k.
+Proof. exact (GridClass_C05.stored_grid twopi m p real s1 s2 n c S1 S2). Qed.
+
+Theorem periodogram_grid_rel (n c : nat) (tw' : Z -> F) (Hc : (0 < c)%nat) twopi (x w : list F) isreal dt sbf fs :
+  (1 <= n)%nat -> (length x <= n)%nat -> py_is_true sbf = false ->
+  grid_rel (lay_of FSperiodogram isreal) n c
+    (speriodogram (coarsen c tw') twopi x w (Some n) isreal dt sbf fs)
+    (speriodogram tw' twopi x w (Some (c * n)%nat) isreal dt sbf fs).
+Proof. exact (GridLink_C05.periodogram_grid_rel n c tw' Hc twopi x w isreal dt sbf fs). Qed.
+
+Theorem correlogram_grid_rel (n c : nat) (tw' : Z -> F) (Hc : (0 < c)%nat) (T' : Twiddle (c * n) tw')
+  rp (x : list F) y lag wfull nm be lc lf : (2 * lag + 1 <= n)%nat ->
+  correlogram (coarsen c tw') rp x y lag wfull (Some n) nm be = Some lc ->
+  correlogram tw' rp x y lag wfull (Some (c * n)%nat) nm be = Some lf ->
+  grid_rel (lay_of FCorrelogrampsd true) n c lc lf /\ grid_rel (lay_of FCorrelogrampsd false) n c lc lf.
+Proof. exact (GridLink_C05.correlogram_grid_rel n c tw' Hc rp x y lag wfull nm be lc lf). Qed.
+
+Theorem arma2psd_grid_rel (n c : nat) (tw' : Z -> F) (Hc : (0 < c)%nat) (T' : Twiddle (c * n) tw')
+  (A B : option (list F)) (rho T : F) real : admissible A B n ->
+  exists pc pf, arma2psd (coarsen c tw') A B rho T n SidesDefault false = Some pc
+             /\ arma2psd tw' A B rho T (c * n) SidesDefault false = Some pf
+             /\ grid_rel (lay_of FArma2psd real) n c pc pf.
+Proof. exact (GridLink_C05.arma2psd_grid_rel n c tw' Hc A B rho T real). Qed.
+
+Theorem minvar_grid_rel (n c : nat) (tw' : Z -> F) (Hc : (0 < c)%nat) (T' : Twiddle (c * n) tw')
+  (x : list F) m s real pc Ac kc pf Af kf : (2 * m - 1 <= n)%nat ->
+  minvar (coarsen c tw') x m s n = Some (pc, Ac, kc) -> minvar tw' x m s (c * n) = Some (pf, Af, kf) ->
+  grid_rel (lay_of FMinvar real) n c pc pf.
+Proof. exact (GridLink_C05.minvar_grid_rel n c tw' Hc x m s real pc Ac kc pf Af kf). Qed.
+
+Theorem mtm_grid_rel (n c : nat) (tw' : Z -> F) (Hc : (0 < c)%nat)
+  {NWT : Type} (dpss : nat -> NWT -> option nat -> list (list F) * list F) fuel (x : list F) NW k e v m real
+  SC wC evC SF wF evF : (length x <= n)%nat -> m <> Adapt ->
+  pmtm dpss fuel (coarsen c tw') x NW k (Some n) e v m = Some (SC, wC, evC) ->
+  pmtm dpss fuel tw' x NW k (Some (c * n)%nat) e v m = Some (SF, wF, evF) ->
+  grid_rel (lay_of FPmtm real) n c (mt_mean m SC wC (length evC) n) (mt_mean m SF wF (length evF) (c * n)).
+Proof. exact (GridLink_C05.mtm_grid_rel n c tw' Hc dpss fuel x NW k e v m real SC wC evC SF wF evF). Qed.
+
+Theorem eigen_grid_rel (n c : nat) (tw' : Z -> F) (Hc : (0 < c)%nat) (T' : Twiddle (c * n) tw')
+  meth eps nsig thr crit amin (x : list F) P S Vh real pc evc pf evf :
+  (0 < n)%nat -> (forall I, (I < P)%nat -> length (mrow Vh I) = P) -> (P <= n)%nat ->
+  eigen meth eps nsig thr crit amin (coarsen c tw') n x P S Vh = inr (pc, evc) ->
+  eigen meth eps nsig thr crit amin tw' (c * n) x P S Vh = inr (pf, evf) ->
+  grid_rel (lay_of FEigen real) n c pc pf.
+Proof. exact (GridLink_C05.eigen_grid_rel n c tw' Hc meth eps nsig thr crit amin x P S Vh real pc evc pf evf). Qed.
 End C05.
 
-(* non-vacuity: the period-4 character coarsens to a period-2 character *)
+(* ---------------- non-vacuity: exact runs on Gaussian rationals, grids 2 and 4 (c = 2) ---------------- *)
+Local Open Scope Z_scope.
+Definition q1 : QcC := cz (1,0) (0,0).
+Definition ex_x : list QcC := [cz (1,0) (2,0); cz (3,0) (-1,0)].
+(* the period-4 character coarsens to a period-2 character *)
 Example coarse_example : @Twiddle _ qcc_ops 2 (coarsen 2 tw4).
 Proof. apply (@character_of_coarse_grid _ qcc_ops 2 2 tw4); [lia|lia|exact tw4_twiddle]. Qed.
+(* speriodogram with mean removal (detrend=True), complex data: bins 0, 2 of NFFT = 4 are bins 0, 1 of NFFT = 2; not all zero *)
+Example periodogram_grid_example :
+  let fine := @speriodogram _ qcc_ops tw4 q1 ex_x [q1; cz (1,-1) (0,0)] (Some 4%nat) false PyTrue PyFalse q1 in
+  let coarse := @speriodogram _ qcc_ops (coarsen 2 tw4) q1 ex_x [q1; cz (1,-1) (0,0)] (Some 2%nat) false PyTrue PyFalse q1 in
+  qcc_close_list (dy 0 0) [nthF (OF:=qcc_ops) fine 0; nthF (OF:=qcc_ops) fine 2] coarse
+  && negb (qcc_close_list (dy 0 0) coarse [cz (0,0) (0,0); cz (0,0) (0,0)]) = true.
+Proof. vm_compute. reflexivity. Qed.
+(* arma2psd, AR(1) with a complex coefficient *)
+Example arma2psd_grid_example :
+  match @arma2psd _ qcc_ops tw4 (Some [cz (1,-1) (1,-2)]) None q1 q1 4 SidesDefault false,
+        @arma2psd _ qcc_ops (coarsen 2 tw4) (Some [cz (1,-1) (1,-2)]) None q1 q1 2 SidesDefault false with
+  | Some fine, Some coarse =>
+      qcc_close_list (dy 0 0) [nthF (OF:=qcc_ops) fine 0; nthF (OF:=qcc_ops) fine 2] coarse
+      && negb (qcc_close_list (dy 0 0) [nthF (OF:=qcc_ops) coarse 0] [nthF (OF:=qcc_ops) coarse 1])
+  | _, _ => false
+  end = true.
+Proof. vm_compute. reflexivity. Qed.
+(* pmusic on complex data, P = 2 <= NFFT = 2, one noise vector (1, 1/2) *)
+Example music_grid_example :
+  let Vh := [[q1; cz (0,0) (0,0)]; [q1; cz (1,-1) (0,0)]] in
+  let S := [cz (2,0) (0,0); q1] in
+  let x3 := [q1; cz (0,0) (1,0); cz (-1,0) (0,0)] in
+  match @pclass _ qcc_ops MMusic (cz (1,-52) (0,0)) false None (Some (NInt 1)) None CAic 0 tw4 4 x3 2 S Vh,
+        @pclass _ qcc_ops MMusic (cz (1,-52) (0,0)) false None (Some (NInt 1)) None CAic 0 (coarsen 2 tw4) 2 x3 2 S Vh with
+  | inr (fine, _), inr (coarse, _) =>
+      qcc_close_list (dy 0 0) [nthF (OF:=qcc_ops) fine 0; nthF (OF:=qcc_ops) fine 2] coarse
+      && negb (qcc_close_list (dy 0 0) [nthF (OF:=qcc_ops) coarse 0] [nthF (OF:=qcc_ops) coarse 1])
+  | _, _ => false
+  end = true.
+Proof. vm_compute. reflexivity. Qed.
+(* MultiTapering (eigen weights), supplied tapers and eigenvalues, real-data fold: entries 0, 1 of NFFT = 2 are entries 0, 2 of NFFT = 4 *)
+Example mtm_grid_example :
+  let tapers := [[q1; q1]; [q1; cz (-1,0) (0,0)]] in
+  let ev := [q1; cz (1,-1) (0,0)] in
+  let xr := [cz (3,0) (0,0); cz (1,0) (0,0)] in
+  let dpss0 := fun (_ : nat) (_ : unit) (_ : option nat) => (@nil (list QcC), @nil QcC) in
+  match @mt_call _ qcc_ops unit dpss0 100 tw4 true xr None None (Some 4%nat) (Some ev) (Some tapers) Eigen false q1,
+        @mt_call _ qcc_ops unit dpss0 100 (coarsen 2 tw4) true xr None None (Some 2%nat) (Some ev) (Some tapers) Eigen false q1 with
+  | Some fine, Some coarse =>
+      (length fine =? 3)%nat && (length coarse =? 2)%nat
+      && qcc_close_list (dy 0 0) [nthF (OF:=qcc_ops) fine 0; nthF (OF:=qcc_ops) fine 2] coarse
+      && negb (qcc_close_list (dy 0 0) [nthF (OF:=qcc_ops) coarse 0] [nthF (OF:=qcc_ops) coarse 1])
+  | _, _ => false
+  end = true.
+Proof. vm_compute. reflexivity. Qed.
 
 Print Assumptions character_of_coarse_grid.
 Print Assumptions dft_common_frequencies.
 Print Assumptions fft_common_frequencies.
+Print Assumptions periodogram_grid.
+Print Assumptions periodogram_class_grid.
+Print Assumptions correlogram_grid.
+Print Assumptions arma2psd_grid.
+Print Assumptions minvar_grid.
+Print Assumptions pmtm_grid.
+Print Assumptions mtm_grid.
+Print Assumptions mtm_adapt_pointwise.
+Print Assumptions mtm_adapt_grid.
+Print Assumptions eigen_grid.
+Print Assumptions music_grid.
+Print Assumptions store_grid.
+Print Assumptions stored_grid.
+Print Assumptions periodogram_grid_rel.
+Print Assumptions correlogram_grid_rel.
+Print Assumptions arma2psd_grid_rel.
+Print Assumptions minvar_grid_rel.
+Print Assumptions mtm_grid_rel.
+Print Assumptions eigen_grid_rel.
